@@ -348,7 +348,7 @@ class BackendProvider(ABC):
         to a call of the interpreter's own verb, so that compiled and
         interpreted evaluation cannot disagree on them.
         """
-        from ..dyads import eval_dyad_power
+        from ..dyads import eval_dyad_divide, eval_dyad_power
 
         def nonempty(a):
             if len(a) == 0:
@@ -357,6 +357,7 @@ class BackendProvider(ABC):
 
         return {
             '_kg_nonempty': nonempty,
+            '_kg_divide': lambda a, b: eval_dyad_divide(a, b, self),
             '_kg_power': lambda a, b: eval_dyad_power(a, b, self),
         }
 
